@@ -438,9 +438,11 @@ def rule_grid_dimensions(chk, tree):
     from verif_static import paths as PT
     # per path that reaches a store into the grid sizes: the weakest lower bound on a relative extent that the path has established (an `if rel > c:` around the store,
     # `if not rel > c: continue` before it, `if rel <= c: continue`, a boolean mask `rel > c` used as the index) - whatever the spelling
+    # the grid sizes: the array the function hands back (whatever it is called)
+    grid_names = set(r_.value.id for r_ in ast.walk(fn) if isinstance(r_, ast.Return) and isinstance(r_.value, ast.Name))
     for p_ in PT.enumerate_paths(M.docstring_stripped(fn.body)):
         for k_, e in enumerate(p_):
-            if not (e.kind == 'stmt' and isinstance(e.node, ast.Assign) and isinstance(e.node.targets[0], ast.Subscript) and compact(e.node.targets[0].value) == 'dimensions'):
+            if not (e.kind == 'stmt' and isinstance(e.node, ast.Assign) and isinstance(e.node.targets[0], ast.Subscript) and compact(e.node.targets[0].value) in grid_names):
                 continue
             bounds_ = []
             for t_, tr_ in PT.path_facts(p_[:k_]):
